@@ -6,7 +6,7 @@
      spec_ok  : the decidable specification, evaluated on the IMPLEMENTATION's answer
    Nothing here is proved; it is extracted to OCaml and run by the harness. *)
 From Coq Require Import List Arith NArith Bool.
-From MR Require Import Lib.Bytes Lib.Val Model.Index Model.Dag.
+From MR Require Import Lib.Bytes Lib.Val Model.Index Model.Dag Model.Git.
 Import ListNotations.
 Open Scope nat_scope.
 
@@ -247,6 +247,66 @@ Definition check_analyze_groups (v : val) : val :=
          valid_pruned_b a (labels_to_nodes cfg i_targets) (map (labels_to_nodes cfg) i_groups) in
   VL [eB in_scope; mv; eB agree; eB spec; eB cyc].
 
+
+(* ---------- C02 / C07 / C19: git changes and checkpoint update, concrete instance of Model/Git.v ---------- *)
+(* paths are byte strings, contents are content ids handed out by the harness (distinct ids for distinct
+   bytes), a digest is the content id it is the SHA-256 of, or None for the empty checksum *)
+Definition cdigest := option N.
+Definition cdigest_eqb (a b : cdigest) : bool :=
+  match a, b with None, None => true | Some x, Some y => N.eqb x y | _, _ => false end.
+Definition csha (c : N) : cdigest := Some c.
+Fixpoint assoc {B} (l : list (str * B)) (p : str) : option B :=
+  match l with [] => None | (q, b) :: r => if str_eqb q p then Some b else assoc r p end.
+Definition dTree (v : val) : str -> option N := assoc (map (fun e => (dStr (dNth e 0), dN (dNth e 1))) (dL v)).
+Definition dDigest (v : val) : cdigest := dOpt dN v.
+Definition dPending (v : val) : option (list (str * cdigest)) :=
+  dOpt (fun m => map (fun e => (dStr (dNth e 0), dDigest (dNth e 1))) (dL m)) v.
+Definition ePending (pn : option (list (str * cdigest))) : val :=
+  eOpt (fun m => VL (map (fun '(p, d) => VL [eStr p; eOpt eN d]) m)) pn.
+Definition dRepo (v : val) : repo str N :=
+  {| universe := dStrs (dNth v 0);
+     head := dTree (dNth v 1);
+     tracked := fun p => mem_str p (dStrs (dNth v 2));
+     work := dTree (dNth v 3);
+     ignored := fun p => mem_str p (dStrs (dNth v 4)) |}.
+
+Definition c_all_changes_opts := all_changes_opts str N cdigest str_eqb N.eqb cdigest_eqb csha None.
+Definition c_update_pending := update_pending str N cdigest str_eqb N.eqb cdigest_eqb csha None.
+
+Fixpoint sorted_nonstrict (l : list str) : bool :=
+  match l with
+  | [] => true
+  | x :: r => match r with [] => true | y :: _ => negb (lex_ltb y x) && sorted_nonstrict r end
+  end.
+
+(* input: repo, cp_tree option, begin tree option, end tree option, pending option, impl (tag, names) *)
+Definition check_git_changes (v : val) : val :=
+  let r := dRepo (dNth v 0) in
+  let cp := dOpt dTree (dNth v 1) in
+  let b := dOpt dTree (dNth v 2) in
+  let e := dOpt dTree (dNth v 3) in
+  let pn := dPending (dNth v 4) in
+  let impl := dNth v 5 in
+  let m := sset_of (c_all_changes_opts r cp b e pn) in
+  let names := dStrs (payload impl) in
+  let same := (tag impl =? 1) && sset_eqb names m in
+  VL [eB true; eStrs m; eB same; eB (same && sorted_nonstrict names)].
+
+(* input: repo, with_pending flag, old pending option, impl pending option *)
+Definition pending_key (e : str * cdigest) : str :=
+  fst e ++ [0%N] ++ match snd e with None => [] | Some c => [1%N; c] end.
+Definition check_cp_pending (v : val) : val :=
+  let r := dRepo (dNth v 0) in
+  let flag := dB (dNth v 1) in
+  let old := dPending (dNth v 2) in
+  let impl := dPending (dNth v 3) in
+  let m := c_update_pending r flag old in
+  let same := match m, impl with
+              | None, None => true
+              | Some a, Some b => sset_eqb (map pending_key a) (map pending_key b)
+              | _, _ => false end in
+  VL [eB true; ePending m; eB same; eB same].
+
 (* ---------- dispatch ---------- *)
 From Coq Require Import String.
 Open Scope string_scope.
@@ -256,4 +316,6 @@ Definition dispatch (name : str) (v : val) : val :=
   else if str_eqb name (bs "dag") then check_dag v
   else if str_eqb name (bs "index_groups") then check_index_groups v
   else if str_eqb name (bs "analyze_groups") then check_analyze_groups v
+  else if str_eqb name (bs "git_changes") then check_git_changes v
+  else if str_eqb name (bs "cp_pending") then check_cp_pending v
   else VL [].
